@@ -224,6 +224,36 @@ Theorem no_comment_in_literal ps :
   Forall wf_piece ps -> first_bang (render_pieces ps) = None.
 Proof. intros H. apply first_bang_none; [exact I|now apply bang_free_pieces]. Qed.
 
+(* L2c: on a line that starts inside a literal continued from the previous line (delimiter q,
+   rest of the body first), a '!' after the closing delimiter and complete tokens is found; a '!'
+   in the rest of the body is not.  (The line's first non-blank character is not '!': that would
+   be a comment line.) *)
+Theorem comment_found_after_open_literal q body ps rest :
+  is_quote q = true -> Forall wf_piece ps ->
+  let line := escape_body q body ++ q :: render_pieces ps ++ bang :: rest in
+  bang_first line = false ->
+  match_com line (Some q) = Some (length (escape_body q body) + 1 + length (render_pieces ps)).
+Proof.
+  intros Q H line Hb. unfold match_com, scan_start. rewrite Hb. unfold line.
+  rewrite first_bang_skip; [|exact Q|now apply bang_free_inside].
+  rewrite qrun_escape_body by assumption. cbn [first_bang_from]. rewrite Ascii.eqb_refl.
+  rewrite first_bang_skip; [|exact I|now apply bang_free_pieces].
+  rewrite qrun_pieces by assumption. cbn [first_bang_from]. rewrite Ascii.eqb_refl. f_equal. lia.
+Qed.
+
+(* L2d: a comment line is a comment line also between the lines of a continued literal *)
+Theorem comment_line_in_open_literal q i t :
+  match_com (spaces i ++ bang :: t) (Some q) = Some i.
+Proof.
+  assert (Hl : forall n x, lstrip (spaces n ++ x) = lstrip x).
+  { induction n as [|n IH]; intros x; [reflexivity|exact (IH x)]. }
+  unfold match_com, scan_start, bang_first. rewrite Hl. cbn [lstrip is_space].
+  change (is_space bang) with false. cbv iota. rewrite Ascii.eqb_refl.
+  rewrite first_bang_skip; [|exact I|apply bang_free_spaces].
+  rewrite (qrun_no_quote None (spaces i)) by apply spaces_no_quote.
+  cbn [first_bang_from]. rewrite Ascii.eqb_refl. f_equal. unfold spaces. rewrite repeat_length. lia.
+Qed.
+
 (* ---------- quote_split ---------- *)
 
 Definition head_is (c : ascii) (x : str) : bool :=
@@ -352,8 +382,10 @@ Example pieces_example :
   let ps := [PCode (s "x=1"); PSemi; PSp 1; PLit sq (s "a;b!c'd"); PCode (s "//"); PLit dq (s "e""f")] in
   wf_seq ps /\
   quote_split semi (render_pieces ps) = [s "x=1"; s " 'a;b!c''d'//""e""""f"""] /\
-  first_bang (render_pieces ps ++ s "! c") = Some 23.
+  first_bang (render_pieces ps ++ s "! c") = Some 23 /\
+  bang_first (escape_body sq (s "it's !") ++ sq :: render_pieces ps ++ s "! c") = false /\
+  match_com (escape_body sq (s "it's !") ++ sq :: render_pieces ps ++ s "! c") (Some sq) = Some 31.
 Proof.
-  cbv zeta. split; [|split; vm_compute; reflexivity].
+  cbv zeta. split; [|repeat split; vm_compute; reflexivity].
   simpl. repeat split; repeat constructor.
 Qed.
